@@ -241,4 +241,141 @@ theorem bsonDecode_enc (ms : VMembers) (he : VMembers.firstErr ms = none) (ht : 
   simp only [List.append_nil, V.tag] at h
   simp [bsonDecode, h, V.canon]
 
+/-! ### the serialiser fails exactly on what BSON cannot hold -/
+
+mutual
+  theorem V.firstErr_none_iff : (v : V) → (V.firstErr v = none ↔ V.encodable v = true)
+    | .null => by simp [V.firstErr, V.encodable]
+    | .bool _ => by simp [V.firstErr, V.encodable]
+    | .num n => by cases h : n.refused <;> simp [V.firstErr, V.encodable, h]
+    | .str _ => by simp [V.firstErr, V.encodable]
+    | .arr items => by simpa [V.firstErr, V.encodable] using VList.firstErr_none_iff items
+    | .doc ms => by simpa [V.firstErr, V.encodable] using VMembers.firstErr_none_iff ms
+  theorem VList.firstErr_none_iff : (l : VList) → (VList.firstErr l = none ↔ VList.encodable l = true)
+    | .nil => by simp [VList.firstErr, VList.encodable]
+    | .cons h t => by
+      have ih1 := V.firstErr_none_iff h
+      have ih2 := VList.firstErr_none_iff t
+      cases hh : V.firstErr h with
+      | none => simp [VList.firstErr, VList.encodable, hh, ih1.mp hh, ih2]
+      | some e =>
+        have : V.encodable h = false := by
+          cases he : V.encodable h
+          · rfl
+          · rw [ih1.mpr he] at hh; cases hh
+        simp [VList.firstErr, VList.encodable, hh, this]
+  theorem VMembers.firstErr_none_iff : (ms : VMembers) → (VMembers.firstErr ms = none ↔ VMembers.encodable ms = true)
+    | .nil => by simp [VMembers.firstErr, VMembers.encodable]
+    | .cons k v t => by
+      have ih1 := V.firstErr_none_iff v
+      have ih2 := VMembers.firstErr_none_iff t
+      by_cases hk : (0 : UInt8) ∈ k
+      · simp [VMembers.firstErr, VMembers.encodable, hk]
+      · cases hh : V.firstErr v with
+        | none => simp [VMembers.firstErr, VMembers.encodable, hk, hh, ih1.mp hh, ih2]
+        | some e =>
+          have : V.encodable v = false := by
+            cases he : V.encodable v
+            · rfl
+            · rw [ih1.mpr he] at hh; cases hh
+          simp [VMembers.firstErr, VMembers.encodable, hk, hh, this]
+end
+
+/-! ### BSON's own types come back unchanged -/
+
+theorem Num.canon_of_isBson (n : Num) (h : n.isBson = true) : n.canon = n := by
+  cases n with
+  | f64 _ => rfl
+  | int k v => cases k <;> simp [Num.isBson] at h <;> simp [Num.canon, IntKind.wide]
+
+mutual
+  theorem V.canon_of_isBson : (v : V) → V.isBson v = true → V.canon v = v
+    | .null, _ => by simp [V.canon]
+    | .bool _, _ => by simp [V.canon]
+    | .num n, h => by simp [V.canon, Num.canon_of_isBson n (by simpa [V.isBson] using h)]
+    | .str _, _ => by simp [V.canon]
+    | .arr items, h => by simp [V.canon, VList.canon_of_isBson items (by simpa [V.isBson] using h)]
+    | .doc ms, h => by simp [V.canon, VMembers.canon_of_isBson ms (by simpa [V.isBson] using h)]
+  theorem VList.canon_of_isBson : (l : VList) → VList.isBson l = true → VList.canon l = l
+    | .nil, _ => by simp [VList.canon]
+    | .cons h t, hb => by
+      simp only [VList.isBson, Bool.and_eq_true] at hb
+      simp [VList.canon, V.canon_of_isBson h hb.1, VList.canon_of_isBson t hb.2]
+  theorem VMembers.canon_of_isBson : (ms : VMembers) → VMembers.isBson ms = true → VMembers.canon ms = ms
+    | .nil, _ => by simp [VMembers.canon]
+    | .cons k v t, hb => by
+      simp only [VMembers.isBson, Bool.and_eq_true] at hb
+      simp [VMembers.canon, V.canon_of_isBson v hb.1, VMembers.canon_of_isBson t hb.2]
+end
+
+mutual
+  theorem V.canon_isBson : (v : V) → V.isBson (V.canon v) = true
+    | .null => by simp [V.canon, V.isBson]
+    | .bool _ => by simp [V.canon, V.isBson]
+    | .num n => by
+      cases n with
+      | f64 _ => simp [V.canon, V.isBson, Num.canon, Num.isBson]
+      | int k v => cases k <;> simp [V.canon, V.isBson, Num.canon, Num.isBson, IntKind.wide]
+    | .str _ => by simp [V.canon, V.isBson]
+    | .arr items => by simpa [V.canon, V.isBson] using VList.canon_isBson items
+    | .doc ms => by simpa [V.canon, V.isBson] using VMembers.canon_isBson ms
+  theorem VList.canon_isBson : (l : VList) → VList.isBson (VList.canon l) = true
+    | .nil => by simp [VList.canon, VList.isBson]
+    | .cons h t => by simp [VList.canon, VList.isBson, V.canon_isBson h, VList.canon_isBson t]
+  theorem VMembers.canon_isBson : (ms : VMembers) → VMembers.isBson (VMembers.canon ms) = true
+    | .nil => by simp [VMembers.canon, VMembers.isBson]
+    | .cons _ v t => by simp [VMembers.canon, VMembers.isBson, V.canon_isBson v, VMembers.canon_isBson t]
+end
+
+/-! ### the layout -/
+
+theorem encNum_wf (n : Num) : WfVal n.tag (encNum n) := by
+  cases n with
+  | f64 bits => exact WfVal.double _ (natLE_length 8 bits)
+  | int k v =>
+    cases hk : k.wide
+    · simp only [Num.tag, encNum, hk, Bool.false_eq_true, ↓reduceIte]
+      exact WfVal.int32 _ (natLE_length 4 _)
+    · simp only [Num.tag, encNum, hk, ↓reduceIte]
+      exact WfVal.int64 _ (natLE_length 8 _)
+
+mutual
+  theorem encV_wf : (v : V) → V.encodable v = true → V.small v = true → WfVal v.tag (encV v)
+    | .null, _, _ => WfVal.null
+    | .bool b, _, _ => by cases b <;> exact WfVal.bool _ (by simp)
+    | .num n, _, _ => encNum_wf n
+    | .str s, _, hs => by
+      simp only [V.small, decide_eq_true_eq] at hs
+      exact WfVal.str s hs
+    | .arr items, he, hs => by
+      simp only [V.small, Bool.and_eq_true, decide_eq_true_eq] at hs
+      simp only [V.encodable] at he
+      have := WfVal.arr _ (encItems_wf items 0 he hs.2) hs.1
+      have hl : 4 + (encItems 0 items).length + 1 = (encItems 0 items).length + 5 := by omega
+      rw [hl] at this
+      exact this
+    | .doc ms, he, hs => by
+      simp only [V.small, Bool.and_eq_true, decide_eq_true_eq] at hs
+      simp only [V.encodable] at he
+      have := WfVal.doc _ (encMembers_wf ms he hs.2) hs.1
+      have hl : 4 + (encMembers ms).length + 1 = (encMembers ms).length + 5 := by omega
+      rw [hl] at this
+      exact this
+  theorem encItems_wf : (l : VList) → (i : Nat) → VList.encodable l = true → VList.small l = true → WfElems (encItems i l)
+    | .nil, _, _, _ => WfElems.nil
+    | .cons h t, i, he, hs => by
+      simp only [VList.encodable, Bool.and_eq_true] at he
+      simp only [VList.small, Bool.and_eq_true] at hs
+      have := WfElems.cons h.tag (natDec i) (encV h) (encItems (i + 1) t) (natDec_text i).1 (encV_wf h he.1 hs.1)
+        (encItems_wf t (i + 1) he.2 hs.2)
+      simpa [encItems, List.append_assoc] using this
+  theorem encMembers_wf : (ms : VMembers) → VMembers.encodable ms = true → VMembers.small ms = true → WfElems (encMembers ms)
+    | .nil, _, _ => WfElems.nil
+    | .cons k v t, he, hs => by
+      simp only [VMembers.encodable, Bool.and_eq_true, Bool.not_eq_true', decide_eq_false_iff_not] at he
+      simp only [VMembers.small, Bool.and_eq_true] at hs
+      have := WfElems.cons v.tag k (encV v) (encMembers t) he.1.1 (encV_wf v he.1.2 hs.1) (encMembers_wf t he.2 hs.2)
+      simpa [encMembers, List.append_assoc] using this
+end
+
 end Gd.Cli
